@@ -7,6 +7,8 @@ From the AST (fail-closed: any shape not recognised raises and the check reports
 * Transport._parse_channel_open: the leading branches `(kind == "...") and (self.<handler> is not None)`,
   followed by `elif not self.server_mode:` whose body sets `reject = True`.
 * Transport._parse_global_request: the first branch is `if not self.server_mode:` and only sets `ok = False`.
+* the reply hand-over to the waiting thread stores the value before signalling the event
+  (Transport.global_response / completion_event, Channel.event_ready / event).
 * every assignment to _x11_handler / _forward_agent_handler / _tcp_handler anywhere in paramiko/ happens in
   one of the known functions (the enable / cancel operations the model's history is made of).
 From live objects: message numbers and OPEN_FAILED_ADMINISTRATIVELY_PROHIBITED.
@@ -222,6 +224,53 @@ def _setter_sites(repo):
         raise RuntimeError("expected handler assignments not found: %s" % sorted(missing))
 
 
+def _publish_before_signal(tree, cls, entry_points, field, event):
+    """Hand-over of a reply to a waiting thread: in class `cls`, every function (other than __init__ and the
+    ones that clear it before waiting) that assigns self.<field> must do so BEFORE it calls self.<event>.set(),
+    and each entry point must be such a function itself or call exactly one of them.  A waiter woken by the
+    event otherwise reads the previous request's value."""
+    klass = None
+    for node in ast.walk(tree):
+        if isinstance(node, ast.ClassDef) and node.name == cls:
+            klass = node
+    if klass is None:
+        raise RuntimeError("class %s not found" % cls)
+    good = set()
+    for f in klass.body:
+        if not isinstance(f, ast.FunctionDef) or f.name == "__init__":
+            continue
+        assigns, sets, clears = [], [], []
+        for n in ast.walk(f):
+            if isinstance(n, (ast.Assign, ast.AugAssign, ast.AnnAssign)):
+                targets = n.targets if isinstance(n, ast.Assign) else [n.target]
+                for t in targets:
+                    if _is_self_attr(t, field):
+                        assigns.append(n.lineno)
+            if isinstance(n, ast.Call) and isinstance(n.func, ast.Attribute) and _is_self_attr(n.func.value, event):
+                if n.func.attr == "set":
+                    sets.append(n.lineno)
+                elif n.func.attr == "clear":
+                    clears.append(n.lineno)
+        if not assigns:
+            continue
+        if not sets:
+            if clears:
+                continue          # preparing to wait (e.g. Channel._event_pending), not a hand-over
+            raise RuntimeError("%s.%s assigns self.%s but never signals self.%s" % (cls, f.name, field, event))
+        if max(assigns) >= min(sets):
+            raise RuntimeError("%s.%s signals self.%s before storing self.%s: a woken waiter can read the previous "
+                               "value" % (cls, f.name, event, field))
+        good.add(f.name)
+    for ep in entry_points:
+        f = _find_method(tree, cls, ep)
+        if ep in good:
+            continue
+        called = [n.func.attr for n in ast.walk(f) if isinstance(n, ast.Call) and _is_self_attr(n.func)
+                  and n.func.attr in good]
+        if len(called) != 1:
+            raise RuntimeError("%s.%s does not store self.%s and then signal self.%s" % (cls, ep, field, event))
+
+
 def generate(repo):
     import paramiko
     from paramiko import common
@@ -234,6 +283,9 @@ def generate(repo):
     opn = _open_branches(ttree)
     _global_guard(ttree)
     _setter_sites(repo)
+    _publish_before_signal(ttree, "Transport", ["_parse_request_success", "_parse_request_failure"],
+                           "global_response", "completion_event")
+    _publish_before_signal(ctree, "Channel", ["_request_success"], "event_ready", "event")
     out = ["(* GENERATED by gen/c18.py from the working tree - do not edit *)",
            "From Coq Require Import ZArith List.", "Import ListNotations.", "Open Scope Z_scope.", ""]
     out.append("(* Channel._handle_request chain: (request name, needs a server object) in source order;")
